@@ -43,6 +43,10 @@ class MetricViolation(Exception):
     (tolerance comparison, rounding, clipping, ...): a violation, not an analysis error."""
 
 
+# operators whose real-arithmetic meaning is fine but whose floating-point range is not that of the closed form:
+# a product of n factors overflows / underflows for long vectors where the sum of the logarithms does not
+OVERFLOWING = {"np.prod", "np.product", "np.cumprod", "math.prod", "np.multiply.reduce"}
+
 LOSSY = {"np.isclose", "np.allclose", "np.round", "np.around", "np.rint", "np.floor", "np.ceil", "np.trunc", "np.fix",
          "np.clip", "np.sign", "round", "math.floor", "math.ceil", "math.trunc", "math.isclose", "np.nan_to_num",
          "np.float32", "np.float16", "np.int32", "np.int64", "int"}
@@ -120,6 +124,32 @@ class MetricTranslator:
                     if k.value in out:
                         raise AnalysisError(f"DISTANCES has a duplicate key {k.value!r}")
                     out[k.value] = unparse(v)
+                # later module-level additions (`DISTANCES.update({...})`, `DISTANCES["k"] = f`, `DISTANCES |= {...}`) are
+                # part of the registry the models see
+                for later in self.mi.tree.body:
+                    if later is node or getattr(later, "lineno", 0) < node.lineno:
+                        continue
+                    adds = None
+                    if isinstance(later, ast.Expr) and isinstance(later.value, ast.Call) and isinstance(later.value.func, ast.Attribute) \
+                            and isinstance(later.value.func.value, ast.Name) and later.value.func.value.id == "DISTANCES":
+                        meth = later.value.func.attr
+                        if meth == "update" and len(later.value.args) == 1 and isinstance(later.value.args[0], ast.Dict) \
+                                and not later.value.keywords:
+                            adds = list(zip(later.value.args[0].keys, later.value.args[0].values))
+                        elif meth == "update" and not later.value.args:
+                            adds = [(ast.Constant(k.arg), k.value) for k in later.value.keywords]
+                        else:
+                            raise AnalysisError(f"DISTANCES.{meth}(...) at module level: the registry cannot be read statically")
+                    elif isinstance(later, ast.Assign) and len(later.targets) == 1 and isinstance(later.targets[0], ast.Subscript) \
+                            and isinstance(later.targets[0].value, ast.Name) and later.targets[0].value.id == "DISTANCES":
+                        adds = [(later.targets[0].slice, later.value)]
+                    elif isinstance(later, ast.AugAssign) and isinstance(later.target, ast.Name) and later.target.id == "DISTANCES" \
+                            and isinstance(later.value, ast.Dict):
+                        adds = list(zip(later.value.keys, later.value.values))
+                    for k, v in adds or []:
+                        if not (isinstance(k, ast.Constant) and isinstance(k.value, str)):
+                            raise AnalysisError("an identifier added to DISTANCES is not a string literal")
+                        out[k.value] = unparse(v)
                 return out
         raise AnalysisError("DISTANCES registry not found")
 
@@ -368,6 +398,10 @@ class MetricTranslator:
             args = [self._expr(a, env, ops, obl, fi, depth) for a in node.args]
             if node.keywords:
                 raise AnalysisError(f"{fi.name}: keyword arguments in {f}(...) outside the whitelist")
+            if f in OVERFLOWING:
+                raise MetricViolation(f"{fi.name}:{line}: {f}(...) multiplies the per-coordinate terms: the product overflows "
+                                      "(or underflows to 0) for long or large-valued vectors, where the closed form - a sum - is finite; "
+                                      "'equal up to rounding' does not hold for every vector length")
             if f in LOSSY:
                 raise MetricViolation(f"{fi.name}:{line}: {f}(...) applies a tolerance / rounding / clipping step that no "
                                       "published closed form of the 47 metrics contains")
